@@ -57,13 +57,16 @@ def _rerun_unstable(run):
 
 CHECK = {
     "suites": [
-        suite("consensus", "c17", 28, 240, stdin=True, args=["-suite", "consensus"], timeout={"quick": 600, "thorough": 1500}),
+        suite("consensus", "c17", 22, 240, stdin=True, args=["-suite", "consensus"], timeout={"quick": 600, "thorough": 1500}),
+        suite("fault", "c17", 14, 120, stdin=True, args=["-suite", "fault"], timeout={"quick": 600, "thorough": 1500}),
+        suite("conc", "c17", 8, 90, stdin=True, args=["-suite", "conc"], timeout={"quick": 600, "thorough": 1500}),
         suite("cluster", "c17", 5, 100, stdin=True, args=["-suite", "cluster"], timeout={"quick": 600, "thorough": 2400}),
     ],
     "gen": [{"pkg": "extract_c17", "out": "lean/ClusterVerif/Gen/C17.lean"}],
     "extra": [_rerun_unstable],
     "search_seeds": {"quick": 1, "thorough": 2},
     "lean_sources": ["ClusterVerif/Model/C17.lean", "ClusterVerif/Spec/C17.lean", "ClusterVerif/Lemmas/C17.lean", "ClusterVerif/Lemmas/C17Step.lean",
+                     "ClusterVerif/Model/C17Fault.lean", "ClusterVerif/Spec/C17Fault.lean", "ClusterVerif/Lemmas/C17Fault.lean",
                      "ClusterVerif/Gen/C17.lean", "ClusterVerif/Model/Pin.lean"],
     "rule": "consensus suite: scripts of 4-14 steps over 1-4 real raft.Consensus peers on loopback (bootstrap of 1-3 peers; pin/unpin, "
             "start+add+ready of a staging peer, add of a present peer, removal of an absent / other / own / leader / last peer, restart, "
